@@ -164,6 +164,62 @@ def run(ck):
         if want != ev:
             k = next((i for i, (a, b) in enumerate(zip(want, ev)) if a != b), min(len(want), len(ev)))
             ck.violation("traversal", "events-differ", "\n--\n".join(ts), " ".join(want[max(0, k - 2):k + 3]), " ".join(ev[max(0, k - 2):k + 3]), detail="first difference at event %d of %d/%d" % (k, len(want), len(ev)))
+    # ---- which nested types follow an owner whose type is an alias: decided from the source text alone ----
+    # programs in which the alias an owner names is reached through a chain crossing modules, or through a relative name that
+    # an enclosing scope and an unrelated top-level module could both supply; a decoy alias with another shape stands where a
+    # wrong look-up would find it.  Expected: the owner's reference, then the type references written on the source line of
+    # the alias the language rules select (file and row known by construction), as many as that line's anonymous type nests.
+    SHAPES = [("Sequence<int32>", 1), ("Dictionary<string, bool>", 2), ("Result<string, bool>", 2), ("Sequence<Sequence<bool>>", 2),
+              ("Dictionary<int32, Sequence<string>>", 3), ("Result<Sequence<int32>, Dictionary<string, bool>>", 5)]
+    na = 60 if ck.tier == "quick" else 600
+    acases = []
+    for i in range(na):
+        (s1, n1), (s2, n2) = rng.sample(SHAPES, 2)
+        X, Y, T, U, V = rng.sample(["Alpha", "Beta", "Gamma", "Delta", "Eps", "Zeta", "Eta"], 5)
+        owner = rng.choice(["struct S { v: %s }", "struct S { a: bool, v: %s }", "compact struct S { v: %s }"])
+        if i % 2 == 0:
+            # chain crossing modules: Y::V = X::U, X::U = T (meaning X::T); Y::T is the decoy
+            extra = rng.choice(["", "typealias W = %s\n" % U])
+            link = "W" if extra else U
+            f0 = "module %s\ntypealias %s = %s\ntypealias %s = %s\n%s" % (X, T, s1, U, T, extra.replace("= " + U, "= " + U))
+            f1 = "module %s\ntypealias %s = %s\ntypealias %s = %s::%s\n%s\n" % (Y, T, s2, V, X, link, owner % V)
+            files, walked, want_file, want_row, want_n = [f0, f1], 1, 0, 2, n1
+        else:
+            # relative name through an enclosing scope: inside module X, Y::T means X::Y::T, not the top-level Y::T (decoy)
+            f0 = "module %s\ntypealias %s = %s\n" % (Y, T, s2)
+            f1 = "module %s::%s\ntypealias %s = %s\n" % (X, Y, T, s1)
+            f2 = "module %s\n%s\n" % (X, owner % ("%s::%s" % (Y, T)))
+            files, walked, want_file, want_row, want_n = [f0, f1, f2], 2, 1, 2, n1
+        if rng.random() < 0.5 and i % 2 == 0:
+            files = [files[1], files[0]]
+            walked, want_file = 0, 1
+        acases.append((files, walked, want_file, want_row, want_n))
+    ao = core.run_impl("visit", ["visit - " + " ".join(hx(t) for t in c[0]) for c in acases], chunk=200, timeout=120)
+    ck.stream("alias-scopes", description="owners typed by an alias that is reached through a chain of aliases crossing modules or through a relative name an enclosing scope supplies, with a decoy alias of another shape where a wrong look-up would find it; "
+              "expected, from the source text alone: the owner's own reference followed by exactly the type references written on the source line of the alias the language rules select (file, row, count)")
+    for (files, walked, wf, wr, wn), oo in zip(acases, ao):
+        case = "\n--\n".join(files)
+        ck.count("alias-scopes", case, kind="program")
+        if oo.startswith(("crash", "panic", "skipped")) or " || " not in oo:
+            ck.violation("alias-scopes", "crash", case, "a traversal", oo[:200])
+            continue
+        parts = oo.split(" || ", 1)[0].split(" ;; ")
+        if " || none" not in oo or walked >= len(parts) or " => " not in parts[walked]:
+            ck.violation("alias-scopes", "valid-program-rejected", case, "no diagnostics", oo.split(" || ", 1)[1][:200])
+            continue
+        evs = parts[walked].split(" => ", 1)[1].split(" @@ ")[0].split()
+        k = next((j for j, e in enumerate(evs) if e.startswith("field:") and "::v@" in e), None)
+        got = []
+        if k is not None:
+            for e in evs[k + 1:]:
+                if not e.startswith("tr:"):
+                    break
+                got.append(e)
+        want_desc = "field v, its own reference, then %d reference(s) written in file %d on row %d" % (wn, wf, wr)
+        nested = got[1:]
+        ok = k is not None and len(got) == 1 + wn and all(e.startswith("tr:string-%d:%d:" % (wf, wr)) for e in nested)
+        if not ok:
+            ck.violation("alias-scopes", "nested-types-of-another-alias", case, want_desc, " ".join(got)[:300] or "field v not presented", signature={"form": "chain" if len(files) == 2 else "relative"})
     ck.samples.append({"stream": "traversal", "case": texts[0], "model_input": mlines[0][:300], "model": m[0][:300], "impl_events": " ".join(meta[0][2])[:300]})
     ck.extra["rule"] = "%d generated valid programs (1-3 files each; every file walked) + hand-written cross-file alias / unresolved-reference programs; distinct by model input" % n
     ck.partial.append("interpretation: through an alias of an anonymous type the nested references of the alias are presented from every user (also from another file); the model presents the resolved type's nested references, as the code does")
